@@ -287,8 +287,17 @@ def r5_walk(ctx):
     # last_gate updated for every hop
     w = f.writes_to_field('last_gate')
     ctx.floor('last_gate stamps in the walk', len(w), 2)
-    loop_w = [b for (b, i, st) in w if f.loops_containing(b)]
+    loop_w = [(b, i, st) for (b, i, st) in w if f.loops_containing(b)]
     ctx.check(bool(loop_w), 'last-gate-per-hop', 'the header records the gate reached at every hop', f.where())
+    for (b, i, st) in loop_w:
+        v = f.expr_rvalue(st['r'], b, i)
+        def is_next_payload(t):
+            # `(cur.next_hop() as Some).0` of THIS iteration — not the loop-carried `cur` (a merge that merely contains an earlier next_hop)
+            t = peel(t)
+            return t[0] == 'field' and t[2] == '0' and peel(t[1])[0] == 'as' and peel(peel(t[1])[1])[0] == 'call' and peel(peel(t[1])[1])[1] == G + 'Connection::next_hop'
+        entered = any(x[0] == 'field' and x[2] == 'endpoint' and is_next_payload(x[1]) for x in walk(v))
+        ctx.check(entered, 'last-gate-is-entered-gate', "per hop the header records the gate being ENTERED (the next hop's endpoint): after the last hop it names the final gate of the chain",
+                  f.where(b), show(v)[:160])
     # channel hand-over passes the next connection
     for s in f.calls_to('des::net::channel::Channel::send_message'):
         via = peel(f.expr_operand(s.args[2], s.b, 'T'))
@@ -326,6 +335,28 @@ def r6_stamps(ctx):
 
 def r7_delayed_send(ctx):
     ctx.set_rule('C08.R7')
+    # a send on a gate HANDLE uses that very gate (a module may send on a gate it was handed, e.g. one of another module): the handle
+    # forms of IntoModuleGate are the identity / the upgrade — never a lookup by name in the calling module's table
+    for key, want in (('<std::sync::Arc as des::net::gate::IntoModuleGate>::as_gate', 'clone'), ('<std::sync::Weak as des::net::gate::IntoModuleGate>::as_gate', 'upgrade')):
+        g0 = ctx.P.fns.get(key)
+        if g0 is None:
+            continue
+        ctx.touch(g0)
+        rts = [t for _, t in ret_trees(g0)]
+        def direct(t):
+            t0 = t
+            if t0[0] == 'agg' and str(t0[1]).endswith('Option::Some') and t0[2]:
+                t0 = t0[2][0]
+            t0 = peel(t0)
+            if want == 'clone' and t0[0] == 'call' and t0[1].endswith('::clone') and len(t0[2]) == 1:
+                t0 = peel(t0[2][0])
+            if want == 'upgrade':
+                if not (t0[0] == 'call' and t0[1].endswith('Weak::upgrade') and t0[2]):
+                    return False
+                t0 = peel(t0[2][0])
+            return t0[0] == 'arg' and t0[1] == 1
+        ctx.check(bool(rts) and all(direct(t) for t in rts), 'handle-resolves-to-itself:%s' % ('GateRef' if want == 'clone' else 'GateRefWeak'),
+                  'sending on a gate handle sends on exactly that gate', g0.where(), [show(t)[:120] for t in rts])
     f = ctx.anchor('des::net::runtime::ctx::buf_send_at')
     if not f:
         return
